@@ -370,3 +370,21 @@ package packfile
 //gvc:  loop 3 invariant pos: it3 >= 0
 //gvc:  sink objectsToPack requires unique: forall(a, 0, len(arg0), forall(b, 0, a, keyid(arg0[a]) != keyid(arg0[b])))
 //gvc:end
+
+// Parser.Parse reports "empty packfile" - which pack writers treat as "nothing
+// was sent" and swallow - only when not a single byte of input was read (or
+// the scanner, which says so only for empty input, or a later stage reported
+// it). A
+// stream that ends inside the 12-byte header (git index-pack: "early EOF") is
+// an error like any other truncation (property C09: what git rejects for a
+// structural reason is rejected).
+//gvc:func (*Parser).Parse
+//gvc:  props C09
+//gvc:  theory int
+//gvc:  opt coarse
+//gvc:  opt frame args
+//gvc:  results h err
+//gvc:  loop 1 invariant pos: len(pendingDeltas) >= 0
+//gvc:  loop 2 invariant pos: it2 >= 0
+//gvc:  ensures empty: err == ErrEmptyPackfile ==> p.scanner.offset == 0 || lastres("Error") == ErrEmptyPackfile || calls("resolveDeltas") >= 1
+//gvc:end
